@@ -37,9 +37,8 @@ package best
 //@   chaninv respCh (m): m != nil && validProposal(m.proposal)
 //@   chaninv errCh (m): m != nil
 //@   // ghost history of the responses received so far: got[p][x] <=> a response (proposal p, score x) was received
-//@   ghost n Int
-//@   ghost got (Array Int (Array Real Bool))
-//@   requires n == 0 && (forall p int, x float64 :: !got[p][x])
+//@   ghost n Int = 0
+//@   ghost got (Array Int (Array Real Bool)) = empty
 //@   at recv respCh: ghost n = n + 1
 //@   at recv respCh: ghost got[msg.proposal][msg.score] = true
 //@   loop 1
